@@ -17,6 +17,7 @@ def sig_from_json(d):
 
 class C04(Prop):
     id = 'C04'
+    rule_added = '15% as modular specifications; half of the object re-uses put a failing call (one variable without numbers) between the two evaluations.'
     rule = ('random dense-time STL formulas (no prev/next/rise/fall; depth<=4; bounds multiples of 1/4) x 1..3 '
             'piecewise-constant signals with independent break-points (aligned, interleaved, single-sample, different '
             'first/last stamps; 1..8 samples each, stamps multiples of 1/4): a fresh spec evaluates them and the '
